@@ -62,9 +62,9 @@ func templates(variant int, r *rand.Rand) *scenario {
 	ps := sizes[variant%2]
 	lastShort := []int{0, 100, fixture.Block + 7}[(variant/2)%3]
 	g := smallGeo(ps, 3, lastShort, uint64(variant)*977+13)
-	kind := (variant / 6) % 8
+	kind := (variant / 6) % 9
 	p := 0
-	if (variant/48)%2 == 1 {
+	if (variant/54)%2 == 1 {
 		p = 2 // the short last piece
 	}
 	other := (p + 1) % 3
@@ -85,6 +85,11 @@ func templates(variant int, r *rand.Rand) *scenario {
 	case 3: // Finalise || Del || AddData other piece
 		return &scenario{Name: "fin||del||add-other", Geo: g, Setup: fill,
 			Workers: [][]op{{{K: opFin, P: p, Var: "right"}, rd}, {{K: opDel}}, {{K: opAdd, P: other, B: 0, Var: "valid"}, {K: opAdd, P: p, B: 0, Var: "valid"}, rd}}}
+	case 8: // Finalise || Del || another piece is filled, verified and read meanwhile (Del waits for the hasher)
+		w := append(append([]op(nil), fillOps(g, other)...), op{K: opFin, P: other, Var: "right"},
+			op{K: opRead, Off: int64(other)*int64(ps) + 5, Len: 1000})
+		return &scenario{Name: "fin||del||fill-other+fin+read", Geo: g, Setup: fill,
+			Workers: [][]op{{{K: opFin, P: p, Var: "right"}, rd}, {{K: opDel}, {K: opRead, Off: int64(other)*int64(ps) + 5, Len: 1000}}, w}}
 	case 4: // Finalise(wrong) || Read || AddData
 		return &scenario{Name: "finwrong||read||add", Geo: g, Setup: fill,
 			Workers: [][]op{{{K: opFin, P: p, Var: "wrong"}, rd}, {rd, rd2}, {{K: opAdd, P: p, B: 0, Var: "valid"}, {K: opFin, P: p, Var: "right"}}}, FinalDel: true}
@@ -365,7 +370,7 @@ func TestCheck(t *testing.T) {
 }
 
 func schedPart(t *testing.T, r *vk.Run, prop string) {
-	nTemplates := 96
+	nTemplates := 108
 	budget := r.Env.N(25, 3000) // schedules per templated scenario (DFS, may exhaust earlier)
 	nRandom := r.Env.N(400, 20000)
 	perRandom := r.Env.N(3, 8)
@@ -392,6 +397,17 @@ func schedPart(t *testing.T, r *vk.Run, prop string) {
 		}
 		if d.Done {
 			c.Count("dfs_exhausted_scenarios", 1)
+		} else {
+			// depth-first order spends a small budget on the last decisions only: add as many PRNG-chosen schedules
+			rng := r.Env.Rng(i)
+			for j := 0; j < 2*budget && !c.Violated(); j++ {
+				dec, tr := runSched(t, c, prop, sc, rndChooser{rng})
+				c.Count("schedules", 1)
+				if dec >= 2 {
+					nontriv = true
+				}
+				markSchedule(c, sc.Name, v, tr, dec)
+			}
 		}
 		c.FP(vk.Hash64("tmpl", v), nontriv)
 		c.End()
